@@ -383,4 +383,105 @@ def gen(repo):
     expect_same(gb[1].body[0], 'seq[:] = np.nan')
     expect_same(gb[2], 'seq[:, :self._depth] = self._seq')
     expect_same(body[3], 'self._seq = self._seq[:, :depth]')
+
+    # ------------------------------------------------------------------ state that outlives a call
+    # "output row i is computed from input row i alone" also means: not from what was called before.  The only state
+    # series.py keeps between calls is the lazily imported, memoised scipy.signal.butter inside _butter(); its cache
+    # key is made of ALL arguments of the call (fnc.memoize, property C20).  Everything below is pinned so that a new
+    # cache -- a module-level container, a function attribute, a mutable default argument, a decorator, another
+    # memoize / global -- or a different set of key arguments refuses to generate.
+    _pin_module_state(tree, 'series.py', funcs_only=True,
+                      assigns=['butter = None', 'sosfilt = None', 'reduce_ = reduce'])
+    _pin_module_state(col, '_seriescolumn.py', funcs_only=False, assigns=[])
+    cls = find_function(col, '_SeriesColumn')
+    for ch in cls.body:
+        if isinstance(ch, ast.FunctionDef):
+            continue
+        if isinstance(ch, ast.Expr) and isinstance(ch.value, ast.Constant) and isinstance(ch.value.value, str):
+            continue
+        expect_same(ch, 'dtype = float', '_SeriesColumn class-level state')
+    body = body_nodoc(find_function(tree, '_butter'))
+    if len(body) != 4:
+        raise TranslationError('_butter: statement structure changed')
+    expect_same(body[0], 'global butter, sosfilt')
+    expect_same(body[1], 'if butter is None:\n    from scipy.signal import butter, sosfilt\n    butter = fnc.memoize(butter)',
+                '_butter: lazy import and memoisation of scipy.signal.butter')
+    expect_same(body[2], "sos = butter(order, freq_range, btype=btype, fs=sampling_freq, output='sos')",
+                '_butter: every parameter of the filter is an argument of the memoised call (= part of the cache key)')
+    expect_same(body[3], 'return sosfilt(sos, signal)')
+    if ast.unparse(find_function(tree, '_butter').args) != 'signal, freq_range, order, btype, sampling_freq':
+        raise TranslationError('_butter: signature changed')
+    for name, first, btype in (('filter_bandpass', 'freq_range', 'bandpass'), ('filter_highpass', 'freq_min', 'highpass'),
+                               ('filter_lowpass', 'freq_max', 'lowpass')):
+        fn = find_function(tree, name)
+        body = body_nodoc(fn)
+        if len(body) != 1:
+            raise TranslationError('%s: statement structure changed' % name)
+        if ast.unparse(fn.args) != 'series, %s, order=2, sampling_freq=None' % first:
+            raise TranslationError('%s: signature changed: %s' % (name, ast.unparse(fn.args)))
+        expect_same(body[0], "return _map(series, _butter, freq_range=%s, order=order, btype='%s', "
+                             "sampling_freq=sampling_freq)" % (first, btype), name)
+    body = body_nodoc(find_function(tree, 'smooth'))
+    expect_same(body[-1], 'return _map(series, _smooth, winlen=winlen, wintype=wintype)')
+    body = body_nodoc(find_function(tree, '_map'))
+    if len(body) != 5:
+        raise TranslationError('series._map: statement structure changed')
+    fmod = load(repo, 'datamatrix/functional.py')
+    body = body_nodoc(find_function(fmod, 'map_'))
+    expect_same(body[0], "if not callable(fnc):\n    raise TypeError('fnc should be callable')")
+    expect_same(body[1], 'if isinstance(obj, BaseColumn):\n    return obj._map(fnc)')
     return ''.join(out)
+
+
+def _pin_module_state(tree, what, funcs_only, assigns):
+    """The module keeps no state between calls except the listed assignments: module level = docstring, imports
+    (possibly inside try/except ImportError), undecorated functions (classes unless funcs_only) and exactly the
+    assignments `assigns`; exactly one use of memoize and one `global` statement are allowed in series.py (inside
+    _butter, pinned there), none elsewhere; no default argument is a mutable object or the result of a call; only
+    property / setter decorators on methods."""
+    seen = []
+    for node in tree.body:
+        if isinstance(node, ast.Expr) and isinstance(node.value, ast.Constant) and isinstance(node.value.value, str):
+            continue
+        if isinstance(node, (ast.Import, ast.ImportFrom)):
+            continue
+        if isinstance(node, ast.Try) and all(isinstance(x, (ast.Import, ast.ImportFrom)) for x in node.body) and all(
+                all(isinstance(x, (ast.Import, ast.ImportFrom)) or ast.unparse(x) == 'np = None' for x in h.body)
+                for h in node.handlers) \
+                and not node.orelse and not node.finalbody:
+            continue
+        if isinstance(node, ast.FunctionDef):
+            continue
+        if isinstance(node, ast.ClassDef) and not funcs_only:
+            continue
+        if isinstance(node, ast.Assign):
+            seen.append(ast.unparse(node))
+            continue
+        raise TranslationError('%s: unexpected module-level statement `%s`' % (what, ast.unparse(node)[:80]))
+    if sorted(seen) != sorted(ast.unparse(ast.parse(a).body[0]) for a in assigns):
+        raise TranslationError('%s: module-level assignments changed (state that outlives a call?): %r' % (what, seen))
+    n_memo = n_global = 0
+    for node in ast.walk(tree):
+        if (isinstance(node, ast.Attribute) and 'memoize' in node.attr) or (
+                isinstance(node, ast.Name) and 'memoize' in node.id) or (
+                isinstance(node, ast.alias) and 'memoize' in node.name):
+            n_memo += 1
+        if isinstance(node, (ast.Global, ast.Nonlocal)):
+            n_global += 1
+        if isinstance(node, (ast.FunctionDef, ast.Lambda)):
+            a = node.args
+            for dflt in list(a.defaults) + [x for x in a.kw_defaults if x is not None]:
+                if not isinstance(dflt, (ast.Constant, ast.Name)) and not (
+                        isinstance(dflt, ast.UnaryOp) and isinstance(dflt.operand, ast.Constant)):
+                    raise TranslationError('%s: default argument `%s` of %s is not a constant or a name' % (
+                        what, ast.unparse(dflt), getattr(node, 'name', 'lambda')))
+        if isinstance(node, ast.FunctionDef):
+            for dec in node.decorator_list:
+                if ast.unparse(dec) not in ('property', 'depth.setter'):
+                    raise TranslationError('%s: decorator `%s` on %s' % (what, ast.unparse(dec), node.name))
+        if isinstance(node, ast.ClassDef) and node.decorator_list:
+            raise TranslationError('%s: decorated class %s' % (what, node.name))
+    allowed = (1, 1) if funcs_only else (0, 0)
+    if (n_memo, n_global) != allowed:
+        raise TranslationError('%s: %d uses of memoize and %d global/nonlocal statements (expected %d and %d)' % (
+            (what, n_memo, n_global) + allowed))
